@@ -348,18 +348,24 @@ class SimpleHeatPumpCycle:
 
         """Solve a basic four-state cycle given inlet/outlet temperatures and pressures."""
         # Evaporator outlet / IHX inlet
-        self._compute_state_from_pressure_temperature(
-            p=p0, 
-            T=T0,            
-        )
+        # (without superheat the state is saturated vapour; a (p, T) flash on the
+        # saturation line may return the liquid root instead)
+        if dT_sh > 0:
+            self._compute_state_from_pressure_temperature(
+                p=p0, 
+                T=T0,            
+            )
+        else:
+            self._state.update(CoolProp.PQ_INPUTS, p0, 1.0)
         h_ihx_in = self._state.hmass()
         self._save_cycle_state(0)
 
         # IHX outlet / compressor inlet
-        self._compute_state_from_pressure_temperature(
-            p=p0, 
-            T=T0 + self._ihx_gas_dt,
-        )      
+        if dT_sh + self._ihx_gas_dt > 0:
+            self._compute_state_from_pressure_temperature(
+                p=p0, 
+                T=T0 + self._ihx_gas_dt,
+            )      
         dh_ihx = self._state.hmass() - h_ihx_in
 
         # Compressor discharge (real)
